@@ -458,4 +458,56 @@ func c11r6(w *World, rr *RuleRun) {
 	if n == 0 {
 		rr.Oblige(shortFuncName(h.fn), "the announce_peer branch replies", w.P.Pos(h.fn.Pos()), false, "no reply site in the announce_peer case")
 	}
+	// the hand-over to the store does not wait for application code: in the goroutine (or function)
+	// that calls AddPeer, no call through a configuration hook can run before it
+	addPeer := peerStoreMethod(w, "AddPeer")
+	nAP := 0
+	for _, site := range w.AllCallsTo(w.P.LibFuncs, addPeer) {
+		c := callInstrCommon(site)
+		if !c.IsInvoke() || !w.withinUp(site.Parent(), h.fn) && w.rootOf(site.Parent()) != h.fn && !within(site.Parent(), h.fn) {
+			continue
+		}
+		nAP++
+		f := site.Parent()
+		if f == h.fn || w.rootOf(f) == h.fn && f.Parent() == nil {
+			// called (or started with go) from the handler itself: nothing of the application's runs first in its goroutine
+			if _, isGo := site.(*ssa.Go); isGo {
+				rr.At(w, site, "the peer store is updated without waiting for an application hook", true, "started directly with go")
+				continue
+			}
+		}
+		blockedBy := ""
+		eachInstr([]*ssa.Function{f}, func(_ *ssa.Function, ins ssa.Instruction) {
+			call, ok := ins.(*ssa.Call)
+			if !ok || ins == site {
+				return
+			}
+			t := w.TS.Of(call)
+			if t.Op != OpDyn || len(t.Args) == 0 {
+				return
+			}
+			isHook := false
+			t.Args[0].Walk(func(x *Term) bool {
+				if x.Op == OpField {
+					if fv, ok := x.Obj.(*types.Var); ok && fv != peerStore {
+						if _, isSig := fv.Type().Underlying().(*types.Signature); isSig {
+							isHook = true
+						}
+					}
+				}
+				return !isHook
+			})
+			if !isHook {
+				return
+			}
+			before := (ins.Block() == site.Block() && instrIndex(ins) < instrIndex(site)) || (ins.Block() != site.Block() && blockReaches(ins.Block(), site.Block()))
+			if before && f != h.fn {
+				blockedBy = "hook call at " + w.P.InstrPos(ins) + " runs first in the same goroutine"
+			}
+		})
+		rr.At(w, site, "the peer store is updated without waiting for an application hook", blockedBy == "", blockedBy)
+	}
+	if nAP == 0 {
+		rr.ObligeTrivial(shortFuncName(h.fn), "no PeerStore.AddPeer call in the handler region", "-", true, "")
+	}
 }
